@@ -42,16 +42,14 @@ def ext? (s : String) : Option Ext :=
   else if s.startsWith "=L" then (((s.drop 2).toString.splitOn "/").mapM shape?).map Ext.list
   else none
 
-def foldOps := ["sum", "prod", "nansum", "nanprod"]
-def extremeOps := ["max", "min", "amax", "amin", "nanmax", "nanmin"]
+def foldOps := ["sum", "prod", "nansum", "nanprod", "nanmax", "nanmin"]
+def extremeOps := ["max", "min", "amax", "amin"]
 def scanOps := ["cumsum", "cumprod", "nancumsum", "nancumprod"]
 /-- one-operand math: `self.map(|x| …)` -/
-def unaryOps := ["reciprocal", "positive", "negative", "exp", "exp2", "exp_m1", "log", "log2", "log10", "log_1p",
+def unaryOps := ["reciprocal", "positive", "negative", "exp", "exp2", "exp_m1", "log2", "log10", "log_1p",
   "sinh", "cosh", "tanh", "asinh", "acosh", "atanh", "sqrt", "cbrt", "square", "absolute", "abs", "fabs", "sign",
-  "nan_to_num", "rint", "fix", "trunc", "floor", "ceil", "i0", "sinc", "sin", "cos", "tan", "asin", "acos", "atan",
-  "degrees", "rad2deg", "radians", "deg2rad", "signbit", "spacing", "bitwise_not", "invert",
-  "capitalize", "lower", "upper", "swapcase", "str_len", "is_alpha", "is_alnum", "is_decimal", "is_numeric", "is_digit",
-  "is_space", "is_lower", "is_upper"]
+  "nan_to_num", "fix", "trunc", "floor", "ceil", "i0", "sinc", "sin", "cos", "tan", "asin", "acos", "atan",
+  "degrees", "rad2deg", "radians", "deg2rad", "signbit", "spacing", "bitwise_not", "invert"]
 /-- two-operand math: name ↦ lifting pattern (the table of `harness/src/bin/c04.rs`) -/
 def binaryOps : List (String × BinPat) := [
   ("add", .B), ("subtract", .B), ("multiply", .B), ("power", .B), ("float_power", .B), ("logn", .B),
@@ -150,8 +148,12 @@ def parseStep (name : String) (args : List String) : Option Op :=
   | "inner", [a, b] => do some (.inner (← ref? a) (← ref? b))
   | "matmul", [a, b] => do some (.matmul (← ref? a) (← ref? b))
   | "dot", [a, b] => do some (.dot (← ref? a) (← ref? b))
-  | "unpack_bits", [a, ax, c, o] => do some (.unpackBits (← ref? a) (← optInt? ax) (← optInt? c) (o == "little"))
-  | "pack_bits", [a, ax, o] => do some (.packBits (← ref? a) (← optInt? ax) (o == "little"))
+  | "unpack_bits", [a, ax, c, o] => do some (.unpackBits (← ref? a) (← optInt? ax) (← optInt? c) o.toList)
+  | "pack_bits", [a, ax, o] => do some (.packBits (← ref? a) (← optInt? ax) o.toList)
+  | "log", [a] => do some (.logE (← ref? a))
+  | "rint", [a] => do some (.rint (← ref? a))
+  | "round", [a, d] => do some (.round (← ref? a) (← ref? d))
+  | "around", [a, d] => do some (.round (← ref? a) (← ref? d))
   | nm, [a, ax] =>
     if foldOps.contains nm then do some (.reduceFold (← ref? a) (← optInt? ax))
     else if extremeOps.contains nm then do some (.reduceExtreme (← ref? a) (← optInt? ax))
